@@ -362,7 +362,7 @@ def match_known(known, prop, harness, replay):
 
 # ---- per-property plan ----------------------------------------------------------------------
 TIMEOUTS = {'quick': 900, 'thorough': 3600}
-MEM_GB = {'quick': 10, 'thorough': 16}
+MEM_GB = {'quick': 10, 'thorough': 10}
 PROP_MEM_GB = {'C09': 20}
 SAMPLE_K = {'C12': 6, 'C01': 5, 'C02': 6, 'C03': 5, 'C10': 8}  # how many `s`-tier (enumerated instance) harnesses the quick tier runs (default 12), chosen by VERIF_SEED
 PROP_BUDGET = {'quick': 900, 'thorough': 3 * 3600}
@@ -411,7 +411,7 @@ def check_property(prop, tier, seed, only=None, jobs=None):
             print(f'INCONCLUSIVE property={prop} reason=kani-build-failed unit={unit}')
             write_evidence(prop, tier, seed, [], t0, note=f'kani build failed for {unit}')
             return 2
-    jobs = jobs or max(1, min(len(hs), NCPU - 2 if tier == 'quick' else NCPU // 2))
+    jobs = jobs or max(1, min(len(hs), NCPU - 2 if tier == 'quick' else 6))
     tmo = int(os.environ.get('L21V_TIMEOUT', TIMEOUTS[tier]))
     mem = int(os.environ.get('L21V_MEM_GB', PROP_MEM_GB.get(prop, MEM_GB[tier])))
     if tier == 'thorough':
@@ -426,7 +426,8 @@ def check_property(prop, tier, seed, only=None, jobs=None):
         status, detail = classify(pr, rc)
         r = dict(h=h, status=status, detail=detail, wall=round(dt, 1), pr=pr, log=log, cex=[])
         if status == 'counterexample':
-            rc2, out2, dt2, log2 = run_harness(h, us[h['unit']], tmo, mem, playback=True)
+            # extracting the trace needs noticeably more memory and time than the verdict did
+            rc2, out2, dt2, log2 = run_harness(h, us[h['unit']], tmo * 2, 48, playback=True)  # kani-driver parses the whole JSON trace in memory
             r['wall'] += round(dt2, 1)
             pbs = parse_playback(out2)
             fail_descs = {c['desc'] for c in pr['checks'] if c['status'] == 'FAILURE'}
